@@ -652,9 +652,10 @@ class ThreadCheck(LockCheck):
                 why = pr.split(':', 2)[2].replace('_', ' ')
                 outside[why] = outside.get(why, 0) + 1
         self.cov['protocol_model_lockstep'] = {
-            'what': 'EpochProto (the model of the interleaving theorems c04_protocol / c16_protocol_*) is run in lockstep with '
-                    'the thread-level model on every replayed trace: each of its actions must be enabled and ids, G, M, E, H '
-                    'and the program counters of the acting thread must agree after every quantum',
+            'what': 'EpochProto + EpochLists (the models of the interleaving theorems c04_protocol / c16_protocol_* / c17_protocol*) '
+                    'are run in lockstep with the thread-level model on every replayed trace: each of their actions must be '
+                    'enabled and ids, G, M, E, H, the chain of list nodes and the program counters of the acting thread must '
+                    'agree after every quantum',
             'scenarios_followed_to_the_end': stats.get('proto_lockstep_scenarios', 0),
             'actions_applied': stats.get('proto_lockstep_actions', 0),
             'scenarios_outside_the_protocol_premises': outside,
@@ -768,7 +769,8 @@ class C16(ThreadCheck):
     lean_module = 'CppUtil.Props.C16'
     theorems = ['CppUtil.Props.c16_initial', 'CppUtil.Props.c16_min_le_cur', 'CppUtil.Props.c16_contains_cur_next', 'CppUtil.Props.c16_quiescent', 'CppUtil.Props.c16_head_is_new',
                 'CppUtil.Props.c16_protocol_count', 'CppUtil.Props.c16_protocol_step', 'CppUtil.Props.c16_protocol_min_le_later_cur',
-                'CppUtil.Props.c16_protocol_quiescent', 'CppUtil.Props.proto_quiet_start', 'CppUtil.Props.proto_quiet_create']
+                'CppUtil.Props.c16_protocol_quiescent', 'CppUtil.Props.proto_quiet_start', 'CppUtil.Props.proto_quiet_create',
+                'CppUtil.Props.c17_protocol_forward_enabled']
     categories = ['epoch']
     kinds = ('epoch',)
     long_share = 0.15
@@ -776,7 +778,10 @@ class C16(ThreadCheck):
 
 class C17(ThreadCheck):
     lean_module = 'CppUtil.Props.C17'
-    theorems = ['CppUtil.Props.c17_list_shape', 'CppUtil.Props.c17_read_back', 'CppUtil.Props.c17_sequential_available', 'CppUtil.Props.c17_sequential_stable']
+    theorems = ['CppUtil.Props.c17_list_shape', 'CppUtil.Props.c17_read_back', 'CppUtil.Props.c17_sequential_available', 'CppUtil.Props.c17_sequential_stable',
+                'CppUtil.Props.c17_protocol', 'CppUtil.Props.c17_protocol_stable', 'CppUtil.Props.c17_protocol_forward_enabled',
+                'CppUtil.Props.lstep_projects', 'CppUtil.Props.c17_protocol_nonvacuous', 'CppUtil.Props.lists_small_example',
+                'CppUtil.Props.lists_stale_premise_needed']
     categories = ['list']
     kinds = ('epoch',)
     long_share = 0.15
@@ -793,7 +798,8 @@ class C20(ThreadCheck):
 
     lean_module = 'CppUtil.Props.C20'
     theorems = ['CppUtil.Props.c20_published_exact', 'CppUtil.Props.c20_published_unique', 'CppUtil.Props.c20_min_is_smallest',
-                'CppUtil.Props.c20_good_consts', 'CppUtil.Props.c20_history_total', 'CppUtil.Props.c20_forward_after_history', 'CppUtil.Props.c20_prune_exact']
+                'CppUtil.Props.c20_good_consts', 'CppUtil.Props.c20_history_total', 'CppUtil.Props.c20_forward_after_history', 'CppUtil.Props.c20_prune_exact',
+                'CppUtil.Props.c17_protocol_forward_enabled']
     categories = ['seqlist', 'seqnodes']
     kinds = ('epoch',)
     seq_share = 1.0
